@@ -746,6 +746,40 @@ def check_secret_keys(chk, F, rid="R16.8", text_rule=None):
     chk.floor(text_rule or rid, "secret key expressions", n, 60)
 
 
+# ---- R16.9 descriptor kinds ---------------------------------------------------------------------------------------------------
+
+def check_desc_type(chk, F):
+    from ..interp import Machine, Adt, Panic
+    rid = "R16.9"
+    chk.rule(rid, "Descriptor::desc_type names the output type of every descriptor form (bare, pkh, wpkh, wsh, sh, sh(wsh), sh(wpkh), "
+                  "tr) and DescriptorType::segwit_version is v1 for tr, v0 for the four segwit-v0 forms and none for bare / sh / "
+                  "pkh (sizes, sighash flavour and utxo checks branch on these)")
+    try:
+        dt = [q for q in F.fns if q.endswith("descriptor::Descriptor::<Pk>::desc_type")][0]
+        sv = [q for q in F.fns if q.endswith("DescriptorType::segwit_version")][0]
+    except IndexError:
+        chk.fail(rid, "anchor", "Descriptor::desc_type / DescriptorType::segwit_version not found", kind="unanalysable")
+        return
+    chk.saw(dt, sv)
+    vals = dict(assembly.values())
+    m = Machine(F, strict=True)
+    table = {"Bare": ("Bare", None), "Pkh": ("Pkh", None), "Wpkh": ("Wpkh", "V0"), "Wsh": ("Wsh", "V0"), "Sh": ("Sh", None),
+             "ShWsh": ("ShWsh", "V0"), "ShWpkh": ("ShWpkh", "V0"), "Tr": ("Tr", "V1")}
+    for name, (want_t, want_v) in table.items():
+        if name == "Tr":
+            d = Adt(DESC, "Tr", {"0": Adt("descriptor::tr::Tr", "Tr", {"internal_key": Term("ik"), "tree": Term("tree"), "spend_info": Term("c")})})
+        else:
+            d = Adt(DESC, {"Bare": "Bare", "Pkh": "Pkh", "Wpkh": "Wpkh", "Wsh": "Wsh"}.get(name, "Sh"), {"0": vals[name]})
+        try:
+            t = m.call_callee({"def": dt, "resolved": dt, "name": "desc_type", "targs": ["PK"]}, [d])
+            v = m.call_path(sv, [t])
+            gv = None if v.variant == "None" else getattr(v.fields["0"], "variant", repr(v.fields["0"]))
+            chk.obligation(rid, getattr(t, "variant", None) == want_t and gv == want_v, name,
+                           "%s: desc_type %r, segwit version %r; expected %s / %s" % (name, t, v, want_t, want_v), F.fns[dt]["span"])
+        except (Unsupported, Panic) as e:
+            chk.fail(rid, "unanalysable:" + name, "unanalysable: %s" % e, kind="unanalysable")
+
+
 def run(chk):
     F = chk.facts()
     chk.explanation = (
@@ -767,3 +801,4 @@ def run(chk):
         chk.guard("R16.6", "descriptor-split", check_descriptor_split, chk, F)
     chk.guard("R16.7", "tr-output", check_tr_output, chk, F)
     chk.guard("R16.8", "secret-keys", check_secret_keys, chk, F)
+    chk.guard("R16.9", "desc-type", check_desc_type, chk, F)
